@@ -387,6 +387,15 @@ Section Inv.
       subst b. exact Hl.
   Qed.
 
+  Lemma resolve_some_meaning hist uri (r : R) :
+    resolve hist uri = Some r <->
+    exists p, In p (map fst hist) /\ covers p uri = true /\
+              (forall q, In q (map fst hist) -> covers q uri = true -> more_specific q p = false) /\
+              last_added hist p = Some r.
+  Proof.
+    rewrite resolve_some. unfold is_best. split; intros [p H]; exists p; tauto.
+  Qed.
+
   Lemma resolve_none hist uri :
     @resolve R hist uri = None <-> forall p, In p (map fst hist) -> covers p uri = false.
   Proof.
